@@ -203,8 +203,14 @@ Scalar MASA::cp_normal<Scalar>::eval_post_mean()
   using std::pow;
 
   Scalar mean;
+  Scalar av = 0;
+  for(int it = 0;it<int(vec_data.size());it++)
+    {
+      av +=vec_data[it];
+    }
+  av = av / (Scalar)vec_data.size();
   Scalar sigmap = sqrt(1/((1/pow(sigma,2)) + (Scalar(vec_data.size())/pow(sigma_d,2))));
-  mean     = pow(sigmap,2) * (m/pow(sigma,2) + (Scalar(vec_data.size())*x_bar/pow(sigma_d,2)));  
+  mean     = pow(sigmap,2) * (m/pow(sigma,2) + (Scalar(vec_data.size())*av/pow(sigma_d,2)));  
   return mean;
 }
 
